@@ -101,6 +101,17 @@ static void codec_boundary_cases(const char* dir, uint64_t seed, int count) { ch
         if (vrng_chance(&R, 1, 4)) { /* a second match further on, so that one sequence follows another */ int64_t off2 = 1 + (int64_t)vrng_below(&R, (uint64_t)(r < 1 ? 1 : r)); for (int64_t i = r + L; i < n; i++) b[i] = b[i - off2]; }
         table_t* t = bytes_table(codec, b, n); snprintf(tag, sizeof tag, "codec-boundary seed=%llu codec=%d literal=%lld match_len=%lld tail=%lld", (unsigned long long)seed, codec, (long long)r, (long long)L, (long long)tl); run_case(t, dir, 200000 + q, tag); v_count("codec_boundary_pages"); tbl_free(t); free(b); } }
 
+/* uncompressed pages whose bytes contain, at many places, a 32-bit little-endian number followed by "PAR1": every such place is a
+ * possible file tail if the write is cut right behind it. The numbers are hostile footer lengths: 0xFFFFFFF8..0xFFFFFFFF (wrap
+ * around in size arithmetic), 0..12, sign-bit values and lengths that point back to plausible places inside the file. */
+static void lookalike_cases(const char* dir, uint64_t seed, int count) { char tag[160];
+    for (int q = 0; q < count; q++) { int64_t n = 0; uint8_t* b = (uint8_t*)malloc(6000); int marks = 6 + (int)vrng_below(&R, 30);
+        for (int m = 0; m < marks && n < 5000; m++) { int gap = (int)vrng_below(&R, 40); vrng_bytes(&R, b + n, (size_t)gap); n += gap; uint32_t L; int kind = (int)vrng_below(&R, 6);
+            if (kind == 0) L = 0xFFFFFFFFu - (uint32_t)vrng_below(&R, 16); else if (kind == 1) L = (uint32_t)vrng_below(&R, 14); else if (kind == 2) L = (uint32_t)n + (uint32_t)vrng_below(&R, 60); else if (kind == 3) L = (uint32_t)n - (uint32_t)vrng_below(&R, (uint64_t)n + 1);
+            else if (kind == 4) { static const uint32_t S[] = {0x7FFFFFFFu, 0x80000000u, 0x80000001u, 0xFFFF0000u, 0x00010000u, 0x7FFFFFF8u}; L = S[vrng_below(&R, 6)]; } else L = (uint32_t)vrng_u64(&R);
+            memcpy(b + n, &L, 4); memcpy(b + n + 4, "PAR1", 4); n += 8; }
+        table_t* t = bytes_table(CARQUET_COMPRESSION_UNCOMPRESSED, b, n); snprintf(tag, sizeof tag, "footer-lookalike seed=%llu marks=%d", (unsigned long long)seed, marks); run_case(t, dir, 300000 + q, tag); v_count("footer_lookalike_pages"); tbl_free(t); free(b); } }
+
 static void run_case(table_t* t, const char* dir, int64_t ci, const char* tag) {
     char path[512]; snprintf(path, sizeof path, "%s/c.parquet", dir); unlink(path); history_noise(dir, ci);
     twrite_result_t wr; int created = tbl_write_path(&R, t, path, &wr);
@@ -126,7 +137,7 @@ int main(int argc, char** argv) {
         { static const int NC[] = {9, 10, 11, 12, 13, 14, 15, 16, 17, 18, 31, 32, 33, 63, 64, 65, 127, 128, 129}; static const int NG[] = {5, 6, 7, 8, 13, 14, 15, 16, 17, 31, 32, 33};
           for (int q = 0; q < (int)(sizeof NC / sizeof *NC) + (int)(sizeof NG / sizeof *NG); q++) { int wide = q < (int)(sizeof NC / sizeof *NC); tgen_t g2 = {8, 12, 0, -1, -1, -1, 0, wide ? 1 + (int)vrng_below(&R, 2) : NG[q - (int)(sizeof NC / sizeof *NC)], wide ? NC[q] : 1 + (int)vrng_below(&R, 3)};
               table_t* t = tbl_generate(&R, &g2); snprintf(tag, sizeof tag, "shape seed=%llu cols=%d row_groups=%d", (unsigned long long)seed, t->ncols, t->nrg); run_case(t, dir, 100000 + q, tag); v_count(wide ? "shape_sweep_wide_tables" : "shape_sweep_many_row_groups"); tbl_free(t); } }
-        codec_boundary_cases(dir, seed, scale >= 2 ? 600 : 120);
+        codec_boundary_cases(dir, seed, scale >= 2 ? 600 : 120); lookalike_cases(dir, seed, scale >= 2 ? 60 : 12);
         v_sample("gen: %lld random tables: 1..8 columns over 7 physical types x REQUIRED/OPTIONAL, 1..4 row groups, rows 0..400 (some up to 60000), 5 codecs, page_size {1,64,1024,65536,default}, batch partitions {single,1-row,small,random incl. 0-row,halving}, interleaved columns", (long long)cases);
     } else if (!strcmp(mode, "enum")) {
         /* all (null pattern x batch partition) pairs for one OPTIONAL column of n rows; all batch partitions for a boolean column */
